@@ -21,6 +21,7 @@ import Proofs.OpGuardWrap
 import Proofs.OpGuardLift
 import Proofs.OpGuardB
 import Props.C01
+import Props.C12
 namespace PM.C04
 open PM
 
@@ -2369,6 +2370,129 @@ theorem opHistory_undo (S : Schema) (htr : compatTransB S = true) (hts : TextLoo
 theorem undoAligned_of_bmp (s : Step) (d' : Node) (hb : bmpDoc d' = true) : s.undoAligned d' := by
   have ha := fun p => alignedAt_of_bmp d'.kids p hb
   cases s <;> simp [Step.undoAligned, ha]
+
+theorem histAll_undoAligned_of_bmp (hist : List (Step × Node)) (fin : Node)
+    (h : HistAll (fun _ _ d' => bmpDoc d' = true) hist fin) : HistAll (fun s _ d' => s.undoAligned d') hist fin :=
+  histAll_mono (fun s _ d' hb => undoAligned_of_bmp s d' hb) hist fin h
+
+/-- a step that keeps the text and leaf tokens keeps "no text outside the Basic Multilingual Plane" -/
+theorem bmp_of_keeps_content (d d' : Node)
+    (h : (ftoks d'.kids).filter Tok.isContent = (ftoks d.kids).filter Tok.isContent)
+    (hb : bmpDoc d = true) : bmpDoc d' = true := by
+  unfold bmpDoc at hb ⊢
+  rw [List.all_eq_true] at hb ⊢
+  intro x hx
+  cases x with
+  | op t a m => rfl
+  | cl => rfl
+  | leaf t a m => rfl
+  | unit c m =>
+    have : Tok.unit c m ∈ (ftoks d'.kids).filter Tok.isContent := List.mem_filter.mpr ⟨hx, rfl⟩
+    rw [h] at this
+    exact hb _ (List.mem_filter.mp this).1
+
+/-- the four structural edits -/
+def structuralOp : Op → Bool
+  | .split .. => true
+  | .join .. => true
+  | .lift .. => true
+  | .wrap .. => true
+  | _ => false
+
+/-- what is asked of a structural edit: the node-range shape of `lift` / `wrap`, no leaf wrapper -/
+def StructResidual (S : Schema) (op : Op) (tr _tr1 : Tr) : Prop :=
+  match op with
+  | .lift a b depth _ => nodeRangeEnds tr.doc a b depth
+  | .wrap a b depth ws => nodeRangeOk tr.doc a b depth ∧ (∀ w ∈ ws, (S.nodeType w.1).isLeaf = false)
+  | _ => True
+
+/-- a structural edit that went through: its step, and the new document keeps the text and leaf tokens -/
+theorem structOp_step (S : Schema) (op : Op) (tr tr1 : Tr) (hop : structuralOp op = true)
+    (hlen : tr.steps.length = tr.docs.length) (h : tr.runOp S op = some tr1)
+    (hres : StructResidual S op tr tr1) :
+    ∃ st, tr1.hist = tr.hist ++ [(st, tr.doc)] ∧ S.apply st tr.doc = .ok tr1.doc ∧
+      (ftoks tr1.doc.kids).filter Tok.isContent = (ftoks tr.doc.kids).filter Tok.isContent := by
+  cases op with
+  | split pos depth =>
+    obtain ⟨st, hb, hs⟩ := Tr.built_some h
+    obtain ⟨e, ha⟩ := Tr.step_hist hlen hs
+    exact ⟨st, e, ha, C12.split_keeps_content S _ _ pos depth st hb ha⟩
+  | join pos depth =>
+    obtain ⟨st, hb, hs⟩ := Tr.built_some h
+    obtain ⟨e, ha⟩ := Tr.step_hist hlen hs
+    exact ⟨st, e, ha, C12.join_keeps_content S _ _ pos depth st hb ha⟩
+  | lift a b depth target =>
+    obtain ⟨st, hb, hs⟩ := Tr.built_some h
+    obtain ⟨e, ha⟩ := Tr.step_hist hlen hs
+    obtain ⟨_, _, _, _, hab, _, _⟩ := hres
+    exact ⟨st, e, ha, C12.lift_keeps_content S _ _ a b depth target st hab hb ha⟩
+  | wrap a b depth ws =>
+    obtain ⟨st, hb, hs⟩ := Tr.built_some h
+    obtain ⟨e, ha⟩ := Tr.step_hist hlen hs
+    obtain ⟨⟨_, _, _, _, hab, _, _, _⟩, hl⟩ := hres
+    exact ⟨st, e, ha, C12.wrap_keeps_content S _ _ a b depth ws st hab hl hb ha⟩
+  | step => simp [structuralOp] at hop
+  | replace => simp [structuralOp] at hop
+  | mark => simp [structuralOp] at hop
+  | addNodeMark => simp [structuralOp] at hop
+  | removeNodeMark => simp [structuralOp] at hop
+  | setNodeAttribute => simp [structuralOp] at hop
+  | setNodeMarkup => simp [structuralOp] at hop
+  | setBlockType => simp [structuralOp] at hop
+
+/-- on a document without text outside the BMP, a run of structural edits meets `OpResidual` -/
+theorem structOps_residual (S : Schema) (htr : compatTransB S = true) (hts : TextLoop S) :
+    ∀ (ops : List Op) (tr : Tr), tr.steps.length = tr.docs.length → FamilyInv S tr.doc → bmpDoc tr.doc = true →
+    (∀ op ∈ ops, structuralOp op = true) → OpsAll S (StructResidual S) tr ops → OpsAll S (OpResidual S) tr ops
+  | [], _, _, _, _, _, _ => trivial
+  | op :: ops, tr, hlen, hI, hb, hall, hres => by
+    simp only [OpsAll] at hres ⊢
+    cases h1 : tr.runOp S op with
+    | none => trivial
+    | some tr1 =>
+      simp only [h1] at hres ⊢
+      have hop := hall op (List.mem_cons_self ..)
+      obtain ⟨st, e, ha, hk⟩ := structOp_step S op tr tr1 hop hlen h1 hres.1
+      have hb1 : bmpDoc tr1.doc = true := bmp_of_keeps_content _ _ hk hb
+      have hal : HistAll (fun s _ d' => s.undoAligned d') (appended tr tr1) tr1.doc := by
+        rw [appended_eq e]
+        exact ⟨undoAligned_of_bmp st tr1.doc hb1, trivial⟩
+      have hr1 : OpResidual S op tr tr1 := by
+        cases op with
+        | split pos depth => exact hal
+        | join pos depth => exact hal
+        | lift a b depth target => exact ⟨hres.1, hal⟩
+        | wrap a b depth ws => exact ⟨hres.1.1, hres.1.2, hal⟩
+        | step => simp [structuralOp] at hop
+        | replace => simp [structuralOp] at hop
+        | mark => simp [structuralOp] at hop
+        | addNodeMark => simp [structuralOp] at hop
+        | removeNodeMark => simp [structuralOp] at hop
+        | setNodeAttribute => simp [structuralOp] at hop
+        | setNodeMarkup => simp [structuralOp] at hop
+        | setBlockType => simp [structuralOp] at hop
+      refine ⟨hr1, ?_⟩
+      obtain ⟨h2, e1, l1, n1, r1⟩ := (Tr.runOp_grows op h1).hist hlen
+      have g1 := op_family S op tr tr1 hlen hI h1 hr1
+      rw [appended_eq e1] at g1
+      have hI1 : FamilyInv S tr1.doc :=
+        (chain_of_invariant S (FamilyInv S) (FamilyGuard S) (family_step S htr hts) h2 tr1.doc
+          (by rw [n1]; exact hI) r1 g1).2
+      exact structOps_residual S htr hts ops tr1 l1 hI1 hb1
+        (fun o ho => hall o (List.mem_cons_of_mem _ ho)) hres.2
+
+/-- **a history of structural edits (`split`, `join`, `lift`, `wrap`) is undone exactly**: schema with
+    transitive `compatible_content` and `TextLoop`; `doc` valid, in normal form, no text outside the Basic
+    Multilingual Plane; the ranges of `lift` / `wrap` are node ranges as `block_range` builds them, no
+    wrapper of a leaf type.  No hypothesis on the recorded steps is left. -/
+theorem structHistory_undo_bmp (S : Schema) (htr : compatTransB S = true) (hts : TextLoop S)
+    (doc : Node) (ops : List Op) (tr' : Tr) (hd : S.checkNode doc = true) (hn : fnorm doc.kids = true)
+    (hb : bmpDoc doc = true) (hall : ∀ op ∈ ops, structuralOp op = true)
+    (h : (Tr.init doc).runOps S ops = some tr')
+    (hres : OpsAll S (StructResidual S) (Tr.init doc) ops) :
+    tr'.undo S = .ok doc ∧ FamilyInv S tr'.doc :=
+  opHistory_undo S htr hts doc ops tr' hd hn h
+    (structOps_residual S htr hts ops (Tr.init doc) rfl ⟨hd, hn⟩ hb hall hres)
 
 /-! Non-vacuity of `opHistory_undo`: on `doc(p("ab"))` (schema `wrapS` above) the history
     "wrap the paragraph in a quote" meets every hypothesis; the recorded step is the structure-flagged
